@@ -131,11 +131,44 @@ def parametrizeIndirect : Expr → List (String × Range)
 /-! ### docstring.rs -/
 
 mutual
+  /-- `first_yield_offset` (as a line): the first `yield` / `yield from` inside an expression - the
+      expression itself or one in expression position; the forms the bridge leaves as `other`
+      (lambdas, comprehensions: scopes of their own) are not entered -/
+  def yieldInExpr : Expr → Option Nat
+    | .yield _ r => some r.line
+    | .yieldFrom _ r => some r.line
+    | .call f args _ kw _ => (yieldInExpr f).orElse (fun _ => (yieldInExprs args).orElse (fun _ => yieldInExprs kw))
+    | .attribute v _ _ => yieldInExpr v
+    | .binOp l _ r _ => (yieldInExpr l).orElse (fun _ => yieldInExpr r)
+    | .unaryOp o _ => yieldInExpr o
+    | .compare l cs _ => (yieldInExpr l).orElse (fun _ => yieldInExprs cs)
+    | .subscript v sl _ => (yieldInExpr v).orElse (fun _ => yieldInExpr sl)
+    | .list es _ => yieldInExprs es
+    | .tuple es _ => yieldInExprs es
+    | .dict ks vs _ => (yieldInExprs ks).orElse (fun _ => yieldInExprs vs)
+    | .await v _ => yieldInExpr v
+    | .group ps _ => yieldInExprs ps
+    | _ => none
+  def yieldInExprs : List Expr → Option Nat
+    | [] => none
+    | e :: es => (yieldInExpr e).orElse (fun _ => yieldInExprs es)
+end
+
+def yieldInOpt : Option Expr → Option Nat
+  | none => none
+  | some e => yieldInExpr e
+
+
+mutual
   /-- `contains_yield` (since the repair it visits what `find_yield_in_stmt` visits: `async with`,
       `async for` and `except` bodies too). -/
   def containsYieldStmt : Stmt → Bool
-    | .expr (.yield _ _) _ => true
-    | .expr (.yieldFrom _ _) _ => true
+    | .expr e _ => (yieldInExpr e).isSome
+    -- a yield in expression position makes the function a generator just the same
+    | .assign _ v _ => (yieldInExpr v).isSome
+    | .augAssign _ v _ => (yieldInExpr v).isSome
+    | .annAssign _ v _ => (yieldInOpt v).isSome
+    | .return_ v _ => (yieldInOpt v).isSome
     | .if_ _ b o _ => containsYield b || containsYield o
     | .for_ _ _ _ b o _ => containsYield b || containsYield o
     | .while_ _ b o _ => containsYield b || containsYield o
@@ -186,15 +219,14 @@ def docstringOf (body : List Stmt) : Option String :=
 
 /-! ### analyzer.rs: yield line -/
 
-def yieldInExpr : Expr → Option Nat
-  | .yield _ r => some r.line
-  | .yieldFrom _ r => some r.line
-  | _ => none
-
 mutual
   /-- `find_yield_in_stmt`. -/
   def yieldInStmt : Stmt → Option Nat
     | .expr e _ => yieldInExpr e
+    | .assign _ v _ => yieldInExpr v
+    | .augAssign _ v _ => yieldInExpr v
+    | .annAssign _ v _ => yieldInOpt v
+    | .return_ v _ => yieldInOpt v
     | .if_ _ b o _ => (yieldLine b).orElse (fun _ => yieldLine o)
     | .with_ _ _ _ b _ => yieldLine b
     | .try_ b h o f _ =>
